@@ -193,6 +193,26 @@ def py_apply(s, change):
     return py_normalize(s[:a] + change["text"] + s[b:])
 
 
+def gen_change(rng, text, base):
+    """One random content change against the client's current (normalised) text: 1/10 full text, else a
+    ranged change with positions inside, at and far beyond the line / document ends."""
+    if rng.below(10) == 0:
+        return {"text": base if rng.below(2) else SNIPPETS[rng.below(len(SNIPPETS))] * 2}
+    nl = text.count("\n") + 1
+
+    def pos():
+        line = rng.below(nl + 2) if rng.below(8) else 1000000
+        col = rng.below(12) if rng.below(8) else 4294967295
+        return (line, col)
+    p, q = pos(), pos()
+    if q < p:
+        p, q = q, p
+    if rng.below(3) == 0:
+        q = p
+    return {"range": {"start": {"line": p[0], "character": p[1]}, "end": {"line": q[0], "character": q[1]}},
+            "text": SNIPPETS[rng.below(len(SNIPPETS))]}
+
+
 def lsp_session(binpath, wsdir, k, sd):
     """One incremental session + one fresh server on the final text. Returns (record, verdict)."""
     from vlib import lsp
@@ -209,22 +229,7 @@ def lsp_session(binpath, wsdir, k, sd):
     for _ in range(1 + rng.below(4)):
         batch = []
         for _ in range(1 + rng.below(3)):
-            if rng.below(10) == 0:
-                ch = {"text": BASE_TEXT if rng.below(2) else SNIPPETS[rng.below(len(SNIPPETS))] * 2}
-            else:
-                nl = text.count("\n") + 1
-
-                def pos():
-                    line = rng.below(nl + 2) if rng.below(8) else 1000000
-                    col = rng.below(12) if rng.below(8) else 4294967295
-                    return (line, col)
-                p, q = pos(), pos()
-                if q < p:
-                    p, q = q, p
-                if rng.below(3) == 0:
-                    q = p
-                ch = {"range": {"start": {"line": p[0], "character": p[1]}, "end": {"line": q[0], "character": q[1]}},
-                      "text": SNIPPETS[rng.below(len(SNIPPETS))]}
+            ch = gen_change(rng, text, BASE_TEXT)
             text = py_apply(text, ch)
             batch.append(ch)
         batches.append(batch)
@@ -262,7 +267,359 @@ def lsp_session(binpath, wsdir, k, sd):
     return rec, None
 
 
-def lsp_stage(res, n, only=None):
+# ----------------------------------------------------------------------------------------------
+# LSP stage, long-lived servers: ONE server per session holds several documents that are opened,
+# edited, closed and RE-OPENED (same URI, version numbering restarting / equal / decreasing / with
+# gaps), documents interleaved, full-text and ranged changes mixed, multi-change notifications.
+# The oracle is the CLIENT's own text (plain-string splice of every change in listed order; didOpen
+# replaces the text; version numbers play no role in the property).  What the server holds is
+# observed at checkpoints through diagnostics + documentSymbol + semanticTokens/full of every
+# open document and compared with a FRESH server that opened the client's texts directly.
+# ----------------------------------------------------------------------------------------------
+def doc_text(i, variant=0):
+    if variant == 1:
+        return ("-- Zähler € \U0001F600\nentity e%d is\n  port (clk : in bit);\nend entity;\n\narchitecture a of e%d is\n"
+                "  signal s, q : bit;\nbegin\n  p : process (clk)\n  begin\n    q <= s;\n  end process;\nend architecture;\n" % (i, i))
+    if variant == 2:
+        return "entity e%d is\r\nend entity;\r\n" % i
+    if variant == 3:
+        return ""
+    return ("entity e%d is\nend entity;\n\narchitecture a of e%d is\n  signal s : bit;\nbegin\n"
+            "  s <= '1';\nend architecture;\n" % (i, i))
+
+
+LINE_SNIPPETS = ["  signal t%d : bit;\n", "  -- Zähler %d\n", "  s <= '0'; -- %d\n", "\n", "  -- \U0001F600 c%d €\n",
+                 "  constant k%d : natural := 3;\n", "  -- %d\r\n", "  signal \\ä%d\\ : bit;\n", "  signal u%d : bit; -- €\r"]
+TAIL_SNIPPETS = [" -- x", "!", " ", "ä", ";", " -- \U0001F600", " s <= s;"]
+VERSION_POLICIES = ["restart1", "restart0", "const0", "equal", "decreasing", "gaps", "continue", "below"]
+
+
+def py_len16s(s):
+    return sum(py_len16(c) for c in s)
+
+
+def gen_struct_change(rng, text, n):
+    """A ranged change that mostly keeps the file parseable (so that diagnostics / symbols / tokens keep
+    fingerprinting the whole text): insert or delete whole lines, type behind the end of a line."""
+    lines = text.split("\n")
+    li = rng.below(len(lines))
+    k = rng.below(8)
+    if k <= 3:
+        t = LINE_SNIPPETS[rng.below(len(LINE_SNIPPETS))]
+        if "%d" in t:
+            t = t % n
+        rg = (li, 0, li, 0)
+    elif k == 4:
+        t = ""
+        rg = (li, 0, li + 1, 0)
+    elif k == 5:
+        t = TAIL_SNIPPETS[rng.below(len(TAIL_SNIPPETS))]
+        e = py_len16s(lines[li])
+        rg = (li, e, li, e + (rng.below(3) if rng.below(4) == 0 else 0))
+    elif k == 6:
+        # replace the tail of a line
+        e = py_len16s(lines[li])
+        a = rng.below(e + 1)
+        t = TAIL_SNIPPETS[rng.below(len(TAIL_SNIPPETS))]
+        rg = (li, a, li, e)
+    else:
+        # join with the next line / split a line
+        e = py_len16s(lines[li])
+        if rng.below(2):
+            t, rg = " ", (li, e, li + 1, 0)
+        else:
+            a = rng.below(e + 1)
+            t, rg = "\n", (li, a, li, a)
+    return {"range": {"start": {"line": rg[0], "character": rg[1]}, "end": {"line": rg[2], "character": rg[3]}}, "text": t}
+
+
+def gen_batch(rng, text, base, n):
+    """A list of 1-4 content changes + the client's text after it."""
+    batch = []
+    k = rng.below(10)
+    if k == 0 and text.count("\n") >= 2:
+        # multi-cursor edit: the same line inserted at 2-3 lines, listed bottom-up (as editors send it:
+        # every range valid for the original text) or top-down (ranges then refer to the intermediate texts)
+        nl = text.count("\n") + 1
+        ls_ = sorted(set(rng.below(nl) for _ in range(2 + rng.below(2))), reverse=bool(rng.below(2)))
+        t = LINE_SNIPPETS[rng.below(3)] % n
+        for li in ls_:
+            batch.append({"range": {"start": {"line": li, "character": 0}, "end": {"line": li, "character": 0}}, "text": t})
+    else:
+        for _ in range(1 + rng.below(3) + (rng.below(2) if k == 1 else 0)):
+            r = rng.below(12)
+            if r == 0:
+                batch.append({"text": doc_text(n % 3, rng.below(4)) if rng.below(3) else base})
+            elif r <= 9:
+                batch.append(gen_struct_change(rng, text, n))
+            else:
+                batch.append(gen_change(rng, text, base))
+            text = py_apply(text, batch[-1])
+        return batch, text
+    for ch in batch:
+        text = py_apply(text, ch)
+    return batch, text
+
+
+def long_script(rng, ndocs, nactions, fixed=None):
+    """Message script of one long-lived server session (pure function of the generator state)."""
+    script = []
+    texts = [None] * ndocs            # the client's text of every OPEN document
+    saved = [py_normalize(doc_text(i)) for i in range(ndocs)]
+    ver = [0] * ndocs
+    pol = [None] * ndocs
+    maxv = [None] * ndocs             # highest version ever used for the URI
+    lowered = [False] * ndocs         # current episode was opened below the earlier maximum
+    st = {"opens": 0, "reopens": 0, "reopens_after_close": 0, "reopens_below_max": 0, "edits_below_max_after_reopen": 0,
+          "closes": 0, "changes": 0, "notifications": 0, "full_changes": 0, "ranged_changes": 0, "multi_change": 0,
+          "checks": 0, "policies": {}}
+    serial = [0]
+
+    def use_version(i, v):
+        ver[i] = v
+        maxv[i] = v if maxv[i] is None else max(maxv[i], v)
+
+    def do_open(i, policy=None, text=None):
+        policy = policy or VERSION_POLICIES[rng.below(len(VERSION_POLICIES))]
+        m = maxv[i]
+        if policy == "restart1":
+            v = 1
+        elif policy in ("restart0", "const0"):
+            v = 0
+        elif policy == "equal":
+            v = m if m is not None else 2
+        elif policy == "decreasing":
+            v = m - 1 if m is not None else 30
+        elif policy == "gaps":
+            v = rng.below(8)
+        elif policy == "below":
+            v = max(0, m - 1 - rng.below(3)) if m else 0
+        else:
+            v = m + 1 if m is not None else 1
+        if text is None:
+            r = rng.below(10)
+            text = doc_text(i, 0) if r <= 3 else doc_text(i, 1) if r <= 5 else saved[i] if r <= 7 else doc_text(i, 2 + rng.below(2))
+        st["opens"] += 1
+        if m is not None:
+            st["reopens"] += 1
+            if texts[i] is None:
+                st["reopens_after_close"] += 1
+            if v < m:
+                st["reopens_below_max"] += 1
+        lowered[i] = m is not None and v < m
+        st["policies"][policy] = st["policies"].get(policy, 0) + 1
+        pol[i] = policy
+        use_version(i, v)
+        texts[i] = py_normalize(text)
+        script.append({"op": "open", "doc": i, "version": v, "text": text})
+
+    def do_change(i, batch=None):
+        p = pol[i]
+        if p in ("const0", "equal"):
+            v = ver[i]
+        elif p == "decreasing":
+            v = ver[i] - 1
+        elif p == "gaps":
+            v = ver[i] + 1 + rng.below(9)
+        else:
+            v = ver[i] + 1
+        serial[0] += 1
+        if batch is None:
+            batch, t = gen_batch(rng, texts[i], doc_text(i), serial[0])
+        else:
+            t = texts[i]
+            for ch in batch:
+                t = py_apply(t, ch)
+        if lowered[i] and v < maxv[i]:
+            st["edits_below_max_after_reopen"] += 1
+        use_version(i, v)
+        texts[i] = t
+        st["changes"] += 1
+        st["multi_change"] += len(batch) > 1
+        for ch in batch:
+            st["ranged_changes" if "range" in ch else "full_changes"] += 1
+        script.append({"op": "change", "doc": i, "version": v, "changes": batch})
+
+    def do_close(i):
+        saved[i] = texts[i]
+        texts[i] = None
+        st["closes"] += 1
+        script.append({"op": "close", "doc": i})
+
+    def do_check():
+        if script and script[-1]["op"] != "check" and any(t is not None for t in texts):
+            st["checks"] += 1
+            script.append({"op": "check"})
+
+    def ins(line, t):
+        return {"range": {"start": {"line": line, "character": 0}, "end": {"line": line, "character": 0}}, "text": t}
+
+    if fixed == 0:
+        # the editor restarts the numbering at 1 with every didOpen
+        do_open(0, "restart1", doc_text(0))
+        for j in range(6):
+            do_change(0, [ins(4, "  signal a%d : bit;\n" % j)])
+        do_close(0)
+        do_open(0, "restart1", doc_text(0))
+        do_change(0, [ins(4, "  signal again : bit;\n")])
+        do_check()
+        do_change(0, [{"text": doc_text(0, 1)}])
+        do_change(0, [ins(0, "-- c\n"), ins(3, "  -- d\n")])
+    elif fixed == 1:
+        # second didOpen without a didClose, numbering from 0, full-text change first
+        do_open(0, "restart0", doc_text(0, 1))
+        do_open(1, "const0", doc_text(1))
+        for j in range(4):
+            do_change(0, [ins(7, "  signal b%d : bit;\n" % j)])
+            do_change(1, [ins(4, "  signal c%d : bit;\n" % j)])
+        do_open(0, "restart0", doc_text(0))
+        do_change(0, [{"text": doc_text(0, 1)}])
+        do_change(0, [ins(7, "  signal late : bit;\n")])
+        do_check()
+        do_close(1)
+        do_open(1, "decreasing", doc_text(1))
+        do_change(1, [ins(4, "  signal d : bit;\n")])
+    else:
+        for _ in range(nactions):
+            i = rng.below(ndocs)
+            if texts[i] is None:
+                do_open(i)
+                continue
+            r = rng.below(20)
+            if r <= 1:
+                do_close(i)
+                if rng.below(2):
+                    do_open(i)
+            elif r == 2:
+                do_open(i)
+            else:
+                do_change(i)
+                if st["checks"] < 3 and rng.below(2 if lowered[i] else 12) == 0:
+                    do_check()
+        if all(t is None for t in texts):
+            do_open(0)
+            do_change(0)
+    do_check()
+    st["notifications"] = sum(1 for x in script if x["op"] != "check")
+    return script, st
+
+
+def canon_json(x):
+    return json.dumps(x, sort_keys=True)
+
+
+def observe_docs(ls, view, uris, open_docs):
+    """What a server holds for the open documents, as far as a client can see it."""
+    from vlib import lsp
+    cv = lsp.canon_view(view)
+    obs = {}
+    for i in open_docs:
+        u = uris[i]
+        sym, _ = ls.call("textDocument/documentSymbol", {"textDocument": {"uri": u}})
+        tok, _ = ls.call("textDocument/semanticTokens/full", {"textDocument": {"uri": u}})
+        syms = sym.get("result") or []
+        obs[str(i)] = {"diagnostics": [list(d) for d in cv.get(u, [])],
+                       "symbols": sorted(canon_json(x) for x in syms) if isinstance(syms, list) else canon_json(syms),
+                       "tokens": (tok.get("result") or {}).get("data") if isinstance(tok.get("result"), dict) else tok.get("result"),
+                       "errors": [canon_json(r["error"]) for r in (sym, tok) if "error" in r]}
+    return json.loads(json.dumps(obs))
+
+
+def play_long(binpath, ws, ndocs, script):
+    """Replays the script on one server; at every check a fresh server gets the client's texts.
+    Returns (verdict or None, details)."""
+    from vlib import lsp
+    os.makedirs(ws, exist_ok=True)
+    with open(os.path.join(ws, "vhdl_ls.toml"), "w") as f:
+        f.write("[libraries]\n" + "".join("lib%d.files = ['d%d.vhd']\n" % (i, i) for i in range(ndocs)))
+    for i in range(ndocs):
+        with open(os.path.join(ws, "d%d.vhd" % i), "w") as f:
+            f.write(doc_text(i))
+    uris = [lsp.uri(os.path.join(ws, "d%d.vhd" % i)) for i in range(ndocs)]
+    texts = [None] * ndocs
+    ls = lsp.LS(binpath, ws)
+    nchecks = 0
+    try:
+        _r, others = ls.initialize()
+        view = lsp.publish_map(others)
+        for n, step in enumerate(script):
+            if step["op"] == "open":
+                i = step["doc"]
+                texts[i] = py_normalize(step["text"])
+                ls.notify("textDocument/didOpen", {"textDocument": {"uri": uris[i], "languageId": "vhdl",
+                                                                     "version": step["version"], "text": step["text"]}})
+            elif step["op"] == "change":
+                i = step["doc"]
+                for ch in step["changes"]:
+                    texts[i] = py_apply(texts[i], ch)
+                ls.notify("textDocument/didChange", {"textDocument": {"uri": uris[i], "version": step["version"]},
+                                                       "contentChanges": step["changes"]})
+            elif step["op"] == "close":
+                texts[step["doc"]] = None
+                ls.notify("textDocument/didClose", {"textDocument": {"uri": uris[step["doc"]]}})
+            else:
+                lsp.publish_map(ls.sync(), view)
+                open_docs = [i for i in range(ndocs) if texts[i] is not None]
+                try:
+                    inc = observe_docs(ls, view, uris, open_docs)
+                except lsp.ServerDied as ex:
+                    ls.kill()
+                    return "server died answering documentSymbol / semanticTokens after the edits: %s" % str(ex)[:300], {"messages": script[:n + 1]}
+                ls2 = lsp.LS(binpath, ws)
+                try:
+                    _r, o2 = ls2.initialize()
+                    v2 = lsp.publish_map(o2)
+                    for i in open_docs:
+                        ls2.notify("textDocument/didOpen", {"textDocument": {"uri": uris[i], "languageId": "vhdl", "version": 0,
+                                                                              "text": texts[i]}})
+                    lsp.publish_map(ls2.sync(), v2)
+                    fresh = observe_docs(ls2, v2, uris, open_docs)
+                    ls2.shutdown()
+                except lsp.ServerDied as ex:
+                    ls2.kill()
+                    ls.kill()
+                    return "fresh server died on the client's texts: %s" % str(ex)[:300], {"messages": script[:n + 1]}
+                nchecks += 1
+                for i in open_docs:
+                    a, b = inc[str(i)], fresh[str(i)]
+                    if a != b:
+                        what = [k for k in ("diagnostics", "symbols", "tokens", "errors") if a[k] != b[k]]
+                        ls.shutdown()
+                        return ("long-lived server: after open/edit/close/re-open histories the server's view (%s) of document d%d "
+                                "differs from a fresh server that opened the client's text (plain-string splice of every "
+                                "change in listed order)" % (", ".join(what), i),
+                                {"messages": script[:n + 1], "document": i, "client_text": texts[i],
+                                 "long_lived": a, "fresh": b})
+            if step["op"] != "check" and n % 4 == 3:
+                lsp.publish_map(ls.sync(), view)
+        ls.shutdown()
+    except lsp.ServerDied as ex:
+        ls.kill()
+        return "long-lived server died during the session: %s" % str(ex)[:300], {"messages": script}
+    return None, {"checks": nchecks}
+
+
+N_FIXED_LONG = 2
+
+
+def lsp_long_session(binpath, wsdir, k, sd, script=None, ndocs=None):
+    rng = PyRng(sd * 7000003 + 104729 * k + 11)
+    if script is None:
+        if k < N_FIXED_LONG:
+            ndocs = 2
+            script, st = long_script(rng, ndocs, 0, fixed=k)
+        else:
+            ndocs = 1 + rng.below(3)
+            script, st = long_script(rng, ndocs, 14 + rng.below(12))
+    else:
+        st = {}
+    rec = {"kind": "lsp-long-session", "session": k, "seed": sd, "docs": ndocs, "script": script, "stats": st}
+    verdict, det = play_long(binpath, os.path.join(wsdir, "L%d" % k), ndocs, script)
+    rec.update(det)
+    return rec, verdict
+
+
+def lsp_stage(res, n, only=None, nlong=0, replay_long=None):
     from concurrent.futures import ThreadPoolExecutor
     ok, log, binpath = vhdl_ls_build()
     if not ok:
@@ -274,12 +631,24 @@ def lsp_stage(res, n, only=None):
     shutil.rmtree(wsdir, ignore_errors=True)
     os.makedirs(wsdir)
     sd = seed()
-    ks = [only] if only is not None else list(range(n))
+    if replay_long is not None:
+        jobs = [("long", replay_long["session"], replay_long["seed"], replay_long["script"], replay_long["docs"])]
+    elif only is not None:
+        jobs = [("short", only[0], only[1])]
+    else:
+        # the long sessions first: they take longest
+        jobs = [("long", k, sd, None, None) for k in range(nlong)] + [("short", k, sd) for k in range(n)]
+
+    def work(j):
+        if j[0] == "long":
+            return ("long",) + lsp_long_session(binpath, wsdir, j[1], j[2], j[3], j[4])
+        return ("short",) + lsp_session(binpath, wsdir, j[1], j[2])
     with ThreadPoolExecutor(max_workers=8) as ex:
-        results = list(ex.map(lambda k: lsp_session(binpath, wsdir, k, sd if only is None else only[1]) if only is None
-                              else lsp_session(binpath, wsdir, only[0], only[1]), ks))
+        results = list(ex.map(work, jobs))
     nd = 0
-    for rec, verdict in results:
+    short = [(rec, verdict) for kind, rec, verdict in results if kind == "short"]
+    longs = [(rec, verdict) for kind, rec, verdict in results if kind == "long"]
+    for rec, verdict in short:
         nontriv = any("range" in c and (c["range"]["end"]["line"] > 8 or c["range"]["end"]["character"] > 11 or "\n" in c["text"])
                       for b in rec["batches"] for c in b)
         res.count_case("lsp:" + json.dumps(rec["batches"], sort_keys=True), nontriv)
@@ -287,9 +656,29 @@ def lsp_stage(res, n, only=None):
             nd += 1
         if verdict:
             res.violation(verdict, rec)
-    res.add_sample({"lsp_session_batches": results[0][0]["batches"], "final_text": results[0][0]["final_text"]}, limit=8)
-    res.coverage["lsp_sessions"] = len(results)
-    res.coverage["lsp_sessions_with_diagnostics"] = nd
+    if short:
+        res.add_sample({"lsp_session_batches": short[0][0]["batches"], "final_text": short[0][0]["final_text"]}, limit=8)
+        res.coverage["lsp_sessions"] = len(short)
+        res.coverage["lsp_sessions_with_diagnostics"] = nd
+    if longs:
+        tot = {}
+        for rec, verdict in longs:
+            stt = rec.get("stats") or {}
+            # non-trivial: the same URI was opened again below its earlier maximum version and edited afterwards
+            res.count_case("lsp-long:" + json.dumps(rec["script"], sort_keys=True), stt.get("edits_below_max_after_reopen", 0) > 0)
+            for k, v in stt.items():
+                if isinstance(v, dict):
+                    d = tot.setdefault(k, {})
+                    for kk, vv in v.items():
+                        d[kk] = d.get(kk, 0) + vv
+                else:
+                    tot[k] = tot.get(k, 0) + int(v)
+            tot["fresh_server_comparisons"] = tot.get("fresh_server_comparisons", 0) + rec.get("checks", 0)
+            if verdict:
+                res.violation(verdict, rec)
+        res.add_sample({"lsp_long_session_script": longs[-1][0]["script"][:12]}, limit=8)
+        res.coverage["lsp_long_sessions"] = len(longs)
+        res.coverage["lsp_long_sessions_stats"] = tot
 
 
 def main(tier, replay=None):
@@ -324,6 +713,13 @@ def main(tier, replay=None):
         rp = json.load(open(replay))
         lsp_stage(res, 1, only=(rp["session"], rp["seed"]))
         return res.finish()
+    if replay and json.load(open(replay)).get("kind") == "lsp-long-session":
+        rp = json.load(open(replay))
+        if "messages" in rp:
+            # the message list up to the failing comparison is the replay
+            rp["script"] = rp["messages"] + ([] if rp["messages"][-1]["op"] == "check" else [{"op": "check"}])
+        lsp_stage(res, 0, replay_long=rp)
+        return res.finish()
     if replay:
         rp = json.load(open(replay))
         path = os.path.join(d, "replay.in")
@@ -335,16 +731,28 @@ def main(tier, replay=None):
             sampled += stream("corpus", "file:" + corpus, 0, 1)
         sampled += stream("exhaustive", "exhaustive4" if tier == "thorough" else "exhaustive3", 0, 3000)
         sampled += stream("random", "random", 1000000 if tier == "thorough" else 30000, 150)
+        # histories through an EMPTY document (new file / select-all-delete / full text ""), then a ranged insert of
+        # non-ASCII text (2-, 3- and 4-byte characters) and ranged edits behind those characters on their lines
+        sampled += stream("emptystart", "emptystart", 200000 if tier == "thorough" else 8000, 100)
     coq_cross_check(res, sampled[:400])
     if not replay:
-        lsp_stage(res, 400 if tier == "thorough" else 48)
+        lsp_stage(res, 400 if tier == "thorough" else 48, nlong=100 if tier == "thorough" else 12)
     res.coverage["exhaustive"] = False
     res.coverage["rule"] = ("corpus of minimised failures first; exhaustive single ranged changes over documents <= 3 chars "
                             "(thorough: 4) of {a, LF, CR, U+1F600}, replacements <= 2 (3) chars, all ordered position pairs "
                             "line<=3/char<=4; random histories of 1-8 edits over {a,b,TAB,LF,CR,e-acute,euro,U+1F600,space} with "
-                            "positions inside, at and beyond line/document ends (incl. 2^32-1) and 1/16 inverted ranges. "
+                            "positions inside, at and beyond line/document ends (incl. 2^32-1) and 1/16 inverted ranges; "
+                            "histories through an EMPTY document (new file, select-all-delete, full text \"\") followed by a ranged "
+                            "insert of text with 2-, 3- and 4-byte characters and 1-5 ranged edits at UTF-16 columns behind those "
+                            "characters on their lines. LSP: 48 one-document sessions (batched didChange, fresh server per session) and "
+                            "long-lived-server sessions (2 scripted + random: 1-3 documents interleaved, open / edits / close / RE-OPEN of "
+                            "the same URI with version numbering restarting at 1 or 0, constant, equal to, below, decreasing from the "
+                            "earlier maximum, with gaps or continuing; full-text and ranged changes mixed, multi-change notifications "
+                            "listed bottom-up and top-down) compared at checkpoints (diagnostics + documentSymbol + semanticTokens/full "
+                            "of every open document) with a fresh server that opened the client's own texts. "
                             "non-trivial = a ranged edit with a multi-line replacement, an out-of-range position or a "
-                            "supplementary-plane character; distinct by hash of the case line")
+                            "supplementary-plane character; for a long-lived-server session: a URI re-opened below its earlier "
+                            "maximum version and edited afterwards; distinct by hash of the case line / message script")
     res.coverage["trusted_base"] = TRUSTED_BASE_COMMON + [
         "characters (Unicode scalars) instead of UTF-8 bytes in the model: bytes 10 and 13 never occur inside a multi-byte sequence",
         "model line numbers are nat: the extracted-model comparison uses lines < 5000; larger values are covered by the plain-string oracle only",
